@@ -111,6 +111,14 @@ SPECS = [
          ensures=["trace('e2', 'e2')"],
          raises={'*': {'ensures': ["True"]}},
          serves=['C12', 'C04']),
+    dict(id='S-Interp-braces',
+         # "the expression extends to its own closing brace even when it contains braces ... or '}'
+         # inside string literals": a lone brace in a literal (unbalanced in the expression text)
+         text="A${'{'}-${'}'}-${e1}B", cls='PageTextTemplate',
+         ensures=["evals(1) == 1",
+                  "not is_exact(val(1), str) or S() == S0() + 'A{-}-' + text(val(1)) + 'B'"],
+         raises={'*': {'ensures': ["raised('e1') or ext_count() > 0 or translate_calls() > 0"]}},
+         serves=['C06', 'C20']),
     dict(id='S-Interp-off', text='A<p meta:interpolation="off">${e1} $ {x}</p>B',
          ensures=["evals(1) == 0", "S() == S0() + 'A<p>${e1} $ {x}</p>B'"],
          serves=['C06']),
